@@ -59,6 +59,8 @@ def run(rep, tier, rng):
     for i in range(nfiles):
         code = shapes.ALL_CODES[i % 13]
         prof = "exact" if (code in shapes.POLYGON_CODES and rng.random() < 0.5) else "mixed"
+        if i // 13 == 3 and shapes.dim_of(code) >= 3:
+            prof = "nanm"                 # every measure NaN, half of the heights NaN: ranges that are NaN themselves
         f = P.gen_file(rng, code, profile=prof)
         f["calls"] = P.finalize_placements(rng, len(f["specs"]))
         files.append(f)
